@@ -16,6 +16,7 @@ META = {
 
 
 def run(rep):
+    sh.rule_key_reads(rep, "C17.reads")
     er.rule_stream(rep)
     lr.rule_source_io(rep, "C17.src")
     sh.rule_shape(rep)
